@@ -18,7 +18,20 @@ from vlib.mainloop import partition_violation
 LEVEL = "exploration"
 
 
-def build(sizes, m, spreads, layout):
+def spread_matrix(k, s, shaped):
+    """a covariance whose overall magnitude (Frobenius norm, what the library documents as 'spread') is s.
+    shaped: alternate 'round' (s/2 * I_4, spectral norm s/2) and 'thin' (diag(s,0,0,0), spectral norm s)
+    matrices, so that any other matrix norm ranks the clusters differently"""
+    if not shaped:
+        return np.array([[float(s), 0.0], [0.0, float(s)]]) / np.sqrt(2.0)
+    if k % 2 == 0:
+        return np.eye(4) * (float(s) / 2.0)
+    m = np.zeros((4, 4))
+    m[0, 0] = float(s)
+    return m
+
+
+def build(sizes, m, spreads, layout, shaped=False):
     from fast_ticc.containers import arguments, model_state
     K = len(sizes)
     labels = []
@@ -31,17 +44,17 @@ def build(sizes, m, spreads, layout):
                                 num_processors=1, window_size=1, biased_covariance=False)
     st = model_state.ModelState.empty_model(a, np.zeros((len(labels), 1)))
     st.point_labels = list(labels)
-    for c, s in zip(st.clusters, spreads):
-        c.computed_covariance = np.array([[float(s), 0.0], [0.0, float(s)]])
+    for k, (c, s) in enumerate(zip(st.clusters, spreads)):
+        c.computed_covariance = spread_matrix(k, s, shaped)
     return st, labels
 
 
-def judge(sizes, m, spreads, layout, draw, repeat=1, respread=False):
+def judge(sizes, m, spreads, layout, draw, repeat=1, respread=False, shaped=False):
     """returns (message or None, outcome tag)"""
     from fast_ticc import cluster_maintenance as cm
     sampler = cm.random
     K = len(sizes)
-    st, labels = build(sizes, m, spreads, layout)
+    st, labels = build(sizes, m, spreads, layout, shaped)
     cur_labels = list(labels)
     cur = st
     tag = None
@@ -55,7 +68,7 @@ def judge(sizes, m, spreads, layout, draw, repeat=1, respread=False):
             fresh = []
             for c, sp in zip(cur.clusters, spreads):
                 c2 = c.shallow_copy()
-                c2.computed_covariance = np.array([[float(sp), 0.0], [0.0, float(sp)]])
+                c2.computed_covariance = spread_matrix(len(fresh), sp, shaped)
                 fresh.append(c2)
             nxt.clusters = fresh
             cur = nxt
@@ -142,9 +155,9 @@ def judge(sizes, m, spreads, layout, draw, repeat=1, respread=False):
         cur, cur_labels = out, new
         if step + 1 < repeat:
             # feed the output back: give the refreshed state the same spreads
-            for c, s in zip(cur.clusters, spreads):
+            for k_, (c, s) in enumerate(zip(cur.clusters, spreads)):
                 if c.computed_covariance is None or np.ndim(c.computed_covariance) != 2:
-                    c.computed_covariance = np.array([[float(s), 0.0], [0.0, float(s)]])
+                    c.computed_covariance = spread_matrix(k_, s, shaped)
     return None, tag
 
 
@@ -177,6 +190,14 @@ def work(task):
                         if math.comb(sizes[d0], m) <= 20:
                             draws = draws + [c for c in itertools.combinations(range(sizes[d0]), m)]
                 for draw in draws:
+                    if draw == "last" and layout == "sorted" and K >= 3:
+                        # same case with covariance matrices of different shapes
+                        acc.n += 1
+                        msg, tag = judge(sizes, m, spreads, layout, "first", shaped=True)
+                        if msg:
+                            acc.fail({"sizes": list(sizes), "m": m, "spreads": list(spreads), "layout": layout,
+                                      "draw": "first", "repeat": 1, "shaped": True},
+                                     "covariances of different shapes (round / thin): " + msg)
                     acc.n += 1
                     msg, tag = judge(sizes, m, spreads, layout, draw)
                     acc.count("outcome", str(tag))
@@ -223,7 +244,7 @@ def run(ctx):
     ctx.cov["grid_K_m"] = [list(x) for x in km]
     ctx.cov["rule"] = (
         "every size vector in {0..3m+2}^K for the listed (K,m) x every strict ordering of spreads + all-equal x "
-        "{sorted, interleaved} label layout x donor draw {first m, last m, and every m-subset of the first "
+        "{sorted, interleaved} label layout (for K>=3 also with round/thin covariance matrices whose Frobenius and spectral norms rank differently) x donor draw {first m, last m, and every m-subset of the first "
         "donor when C(n,m)<=20}; plus histories: the output fed back 3 times, with and without the clusters' spreads being re-ranked (reversed) between applications. Reference model in refs.py "
         "(needy = size<2 in the input; donors = input clusters with >=2m that still hold >=2m, largest spread "
         "first, exactly m per refill; otherwise RuntimeError naming the donor shortage, input untouched). "
@@ -238,7 +259,7 @@ def replay(ctx, case):
     cm.random = seams.ScriptedRandom()
     draw = case["draw"] if isinstance(case["draw"], str) else tuple(case["draw"])
     msg, tag = judge(tuple(case["sizes"]), case["m"], tuple(case["spreads"]), case["layout"], draw,
-                     repeat=case.get("repeat", 1), respread=case.get("respread", False))
+                     repeat=case.get("repeat", 1), respread=case.get("respread", False), shaped=case.get("shaped", False))
     ctx.cov["evaluations"] = 1
     if msg:
         ctx.violation(case, msg)
